@@ -93,6 +93,31 @@ def floatHypot (x y : Float) : Float :=
   | some rx, some ry => sqrtRatToFloat (rx * rx + ry * ry)
   | _, _ => if x.isInf || y.isInf then (1.0 / 0.0) else (0.0 / 0.0)
 
+/-- move the bit pattern `b` of a positive double towards the double nearest to `∛ax` (exact comparison of `ax` with the cubes of the
+    two neighbouring midpoints; a cube root is never a midpoint of two doubles, so there are no ties) -/
+def cbrtAdjust (ax : Rat) : Nat → UInt64 → UInt64
+  | 0, b => b
+  | n + 1, b =>
+    let v (u : UInt64) : Rat := (f64ToRat u).getD 0
+    let mlo := (v (b - 1) + v b) / 2
+    let mhi := (v b + v (b + 1)) / 2
+    if ax < mlo * mlo * mlo then cbrtAdjust ax n (b - 1)
+    else if mhi * mhi * mhi < ax then cbrtAdjust ax n (b + 1)
+    else b
+
+/-- correctly rounded cube root: `std`'s `f64::cbrt` on the pinned toolchain resolves to the `cbrt` of `compiler_builtins`' bundled
+    libm (the CORE-MATH port, correctly rounded), not to the C library's (a few ulps off now and then).  The C library's value is taken
+    as a first guess and moved to the nearest double by exact rational comparisons. -/
+def floatCbrt (x : Float) : Float :=
+  let y := Float.cbrt x
+  match floatToRat? x, floatToRat? y with
+  | some rx, some ry =>
+    if rx == 0 || ry == 0 then y else
+    let ax : Rat := if rx < 0 then -rx else rx
+    let r := Float.ofBits (cbrtAdjust ax 8 y.abs.toBits)
+    if rx < 0 then -r else r
+  | _, _ => y
+
 instance : Scalar Float where
   add := (· + ·); sub := (· - ·); mul := (· * ·); div := (· / ·); neg := (- ·)
   abs := Float.abs
@@ -100,7 +125,7 @@ instance : Scalar Float where
   ofRat := ratToFloat
   floor := Float.floor; ceil := Float.ceil; round := Float.round; trunc := floatTrunc
   sqrt := Float.sqrt
-  cbrt := Float.cbrt
+  cbrt := floatCbrt
   sin := Float.sin
   cos := Float.cos
   tan := Float.tan
